@@ -930,7 +930,7 @@ pub fn run(cfg: &Cfg) -> i32 {
     for n in need {
         if cov.get(&n) == 0 {
             if rep.nviol.load(Ordering::Relaxed) == 0 {
-                machinery_error(&format!("vacuous: C18 coverage cell {} was never exercised", n));
+                vacuous(&format!("vacuous: C18 coverage cell {} was never exercised", n));
             }
             // outcome cells can be empty because the cases failed: the verdict is a violation, the run is not exhaustive
             ev.cap(format!("coverage cell {} not exercised (the cases that feed it failed)", n));
